@@ -54,6 +54,21 @@ def model_of(row):
     return T
 
 
+def advertised(M):
+    """the xs: type the model class itself advertises (what the schema generator publishes for it), or None"""
+    c = M
+    for _ in range(10):
+        if c is None:
+            return None
+        try:
+            if c.get_namespace() == 'http://www.w3.org/2001/XMLSchema':
+                return c.get_type_name()
+        except Exception:
+            return None
+        c = getattr(c, '__extends__', None)
+    return None
+
+
 def xs_of(row):
     if row['t'] == 'ByteArray':
         return 'hexBinary' if row['cust'] == 'hex' else ('base64Binary' if row['cust'] == 'base64' else 'string')
@@ -226,7 +241,10 @@ def run(ctx):
                     s = s.decode('utf8')
                 if isinstance(s, (list, tuple)):
                     s = ''.join(x.decode('utf8') if isinstance(x, bytes) else x for x in s)
-                obs = {'ok': isinstance(s, str), 'text': s if isinstance(s, str) else repr(s), 'xsd': isinstance(s, str) and xsd_accepts(xs_of(row), s)}
+                adv = advertised(M)
+                # the printed text is a literal of the xs: type of the table AND of the type the class advertises
+                obs = {'ok': isinstance(s, str), 'text': s if isinstance(s, str) else repr(s),
+                       'xsd': isinstance(s, str) and xsd_accepts(xs_of(row), s) and (adv is None or xsd_accepts(adv, s))}
             except Exception as e:
                 obs = {'ok': False, 'text': '', 'xsd': False, 'exc': type(e).__name__}
             recs.append({'dir': 'out', 'prot': pname, 'row': row2, 'obs': obs})
